@@ -535,6 +535,17 @@ func genOpcodes() string {
 	fmt.Fprintf(&sb, "def makeConstantGuard : String := %s\n", leanStr(guard(mkd)))
 	fmt.Fprintf(&sb, "def patchJumpGuard : String := %s\n", leanStr(guard(pjd)))
 	fmt.Fprintf(&sb, "def calcBackwardJumpGuard : String := %s\n", leanStr(guard(cbd)))
+	// the guard of the C05 fix: both functions or neither, in the one shape the compile model knows
+	const guardShape = "offset > math.MaxUint16"
+	pg, cg := guard(pjd), guard(cbd)
+	switch {
+	case pg == "" && cg == "":
+		sb.WriteString("/-- patchJump and calcBackwardJump reject offsets above 65535 (false: they truncate silently) -/\ndef jumpGuard : Bool := false\n")
+	case pg == guardShape && cg == guardShape:
+		sb.WriteString("/-- patchJump and calcBackwardJump reject offsets above 65535 (false: they truncate silently) -/\ndef jumpGuard : Bool := true\n")
+	default:
+		refuse(pjd.Pos(), "jump offset guards not in a recognised shape: patchJump %q, calcBackwardJump %q (expected both %q or both absent)", pg, cg, guardShape)
+	}
 	// Compile recovers panics into an error
 	comp := funcDecl(cf, "", "Compile")
 	recovers := false
